@@ -105,7 +105,7 @@ check("C17", "exploration",
 check("C18", "model_checking",
       "Explicit-state BFS over histories of real API calls {create, create+assemble, observe, strong_form, set global quadrature, set "
       "global FMM order, mutate an explicit parameter object, clear_fmm_cache, new spaces, mass_matrix} on two operator slots, from the "
-      "pristine state and from a state with non-default globals, depth 3 (quick) / 4 (thorough); every transition replays the history "
+      "pristine state and from a state with non-default globals, depth 3 (thorough: 8 operator kinds instead of 5 and a wider alphabet); every transition replays the history "
       "on fresh real objects after reset(); states are de-duplicated by the reference model's state (globals, parameter values, slot "
       "facts, predicted cache contents); every observation must equal the table of what a fresh interpreter computes (two fresh "
       "interpreters, opposite orders, must agree); repeated weak_form()/mass_matrix() must return the identical object. Second layer: "
